@@ -68,6 +68,9 @@ pub enum Ev {
     Lower2,
     /// advance by the dead-node grace period + 1 ms (only used in root prefixes)
     AdvGracePlus,
+    /// a delta that resets the observer's copy of the member (watermark raised, stored heartbeat
+    /// back to 0); only used by the `with-copy-resets` part
+    Reset,
 }
 
 pub const ALPHABET: [Ev; 10] = [Ev::Fresh, Ev::FreshRelay, Ev::Equal, Ev::Lower, Ev::AdvA, Ev::AdvB, Ev::AdvMax, Ev::AdvMaxPlus, Ev::AdvBoundPlus, Ev::Eval];
@@ -90,10 +93,11 @@ impl Ev {
             Ev::Eval => "eval",
             Ev::Lower2 => "hb-two-below",
             Ev::AdvGracePlus => "advance-dead-node-grace+1ms",
+            Ev::Reset => "copy-reset-by-a-delta",
         }
     }
     pub fn from_name(s: &str) -> Option<Ev> {
-        ALPHABET.iter().copied().chain([Ev::Lower2, Ev::AdvGracePlus]).find(|e| e.name() == s)
+        ALPHABET.iter().copied().chain([Ev::Lower2, Ev::AdvGracePlus, Ev::Reset]).find(|e| e.name() == s)
     }
     pub fn advance_ms(self, c: &FdCfg) -> Option<u64> {
         Some(match self {
@@ -131,13 +135,15 @@ pub struct Observer {
     pub last_observation_at: Option<u64>,
     /// inter-observation intervals <= max_interval recorded since the member was last found dead
     pub usable_intervals: u64,
+    /// watermark of the last resetting delta
+    pub reset_gc: u64,
 }
 
 impl Observer {
     pub fn new(cfg: FdCfg) -> Observer {
         let fd = FailureDetectorConfig::new(cfg.phi, cfg.window, Duration::from_millis(cfg.max_ms), Duration::from_millis(cfg.initial_ms), if cfg.grace_ms == 0 { Duration::from_secs(100_000_000) } else { Duration::from_millis(cfg.grace_ms) });
         let node = Node::new(&Id::v4("obs", 1, 10_001), &NodeOpts { fd, ..Default::default() });
-        Observer { node, cfg, highest: 0, fresh_count: 0, last_fresh_at: None, now: 0, relay_hb: 0, last_observation_at: None, usable_intervals: 0 }
+        Observer { node, cfg, highest: 0, fresh_count: 0, last_fresh_at: None, now: 0, relay_hb: 0, last_observation_at: None, usable_intervals: 0, reset_gc: 0 }
     }
 
     fn deliver(&mut self, hb: u64, relay: bool) {
@@ -190,6 +196,13 @@ impl Observer {
                 if self.highest > 2 {
                     let hb = self.highest - 2;
                     self.deliver(hb, true);
+                }
+            }
+            Ev::Reset => {
+                if self.highest > 0 {
+                    self.reset_gc += 1;
+                    let m = real::build_real(&Msg::Ack { ops: vec![crate::codec::Op::Node { id: x_id(), gc: self.reset_gc, from: 0 }] }).unwrap();
+                    self.node.cc.verif_process_message(m);
                 }
             }
             Ev::Eval => {
@@ -284,11 +297,18 @@ pub fn roots() -> Vec<(&'static str, Vec<Ev>)> {
 }
 
 pub fn exhaustive(cfg: &FdCfg, root: &[Ev], depth: usize, want: &str, deadline: Instant) -> (Tally, Vec<Viol>, bool) {
+    exhaustive_over(cfg, root, depth, want, deadline, None)
+}
+
+pub fn exhaustive_over(cfg: &FdCfg, root: &[Ev], depth: usize, want: &str, deadline: Instant, alphabet_override: Option<&[Ev]>) -> (Tally, Vec<Viol>, bool) {
     let capped = std::sync::atomic::AtomicBool::new(false);
     // from the non-initial roots the alphabet also has the heartbeat two below the highest
     let mut alphabet: Vec<Ev> = ALPHABET.to_vec();
     if !root.is_empty() {
         alphabet.push(Ev::Lower2);
+    }
+    if let Some(a) = alphabet_override {
+        alphabet = a.to_vec();
     }
     let alphabet = &alphabet;
     // parallel over the first two events after the root
@@ -318,7 +338,9 @@ pub fn exhaustive(cfg: &FdCfg, root: &[Ev], depth: usize, want: &str, deadline: 
                 t.inc("histories");
                 match run_seq(cfg, &seq) {
                     Err((p, what, sig)) => {
-                        if v.len() < 3 {
+                        // (the cap is per property: violations attributed to the other property of this
+                        // engine must not crowd out the ones the running check reports)
+                        if v.iter().filter(|x| x.prop == p).count() < 3 {
                             v.push(Viol { prop: p, what: format!("{what} after {:?}", seq.iter().map(|e| e.name()).collect::<Vec<_>>()), sig, replay: replay_json(cfg, &seq, "exhaustive") });
                         }
                     }
@@ -330,7 +352,9 @@ pub fn exhaustive(cfg: &FdCfg, root: &[Ev], depth: usize, want: &str, deadline: 
                             t.inc("histories_live_then_dead");
                         }
                         // C11 differential: dropping every equal / lower heartbeat changes no verdict
-                        if want == "C11" && seq.iter().any(|e| e.is_stale_hb()) {
+                        // (not for histories with a copy reset: there an equal heartbeat restores the stored
+                        // value the reset wiped, so that the next fresh one counts — which is right)
+                        if want == "C11" && seq.iter().any(|e| e.is_stale_hb()) && !seq.contains(&Ev::Reset) {
                             t.inc("differential_pairs");
                             let stripped: Vec<Ev> = seq.iter().copied().filter(|e| !e.is_stale_hb()).collect();
                             match run_seq(cfg, &stripped) {
@@ -614,6 +638,31 @@ pub fn run(property: &'static str, tier: Tier, started: Instant) -> Vec<Part> {
     e.require("histories_with_a_live_verdict");
     e.require("histories_live_then_dead");
     parts.push(e);
+
+    {
+        let d = tier.pick(6usize, 8usize);
+        let alpha = [Ev::Fresh, Ev::Equal, Ev::Lower, Ev::Reset, Ev::AdvA, Ev::AdvMaxPlus, Ev::Eval];
+        let mut r = Part::new(&format!("fd/with-copy-resets(depth<={d})"));
+        r.rule = format!("as fd/exhaustive, over the alphabet {{fresh, equal, lower, a delta that resets the observer's copy of the member (stored heartbeat back to 0), advance a, advance max_interval+1ms, evaluate}}, every sequence of length <= {d} ending in an evaluation, two configurations (window 3 and 1000); same oracle at every evaluation (in particular: never live with fewer than two strictly increasing heartbeat values observed); the differential re-run is not applied to histories with a reset");
+        let mut viols = vec![];
+        for cfg in cfgs.iter().filter(|c| c.phi == 2.0 && c.initial_ms == 1_000 && c.window != 1) {
+            let (t, v, capped) = exhaustive_over(cfg, &[], d, property, Instant::now() + Duration::from_secs(tier.pick(10, 900)), Some(&alpha));
+            r.tally.merge(&t);
+            viols.extend(v);
+            if capped {
+                r.exhaustive = false;
+                r.caps_hit.push("wall cap".into());
+            }
+        }
+        push(&mut r, viols, property);
+        r.states = r.tally.get("histories");
+        r.transitions = r.tally.get("histories") * d as u64;
+        r.executions = r.tally.get("histories");
+        r.distinct_nontrivial = r.tally.get("histories_with_a_live_verdict");
+        r.sample(json!(["hb-fresh", "copy-reset-by-a-delta", "hb-equal", "eval"]));
+        r.require("histories_with_a_live_verdict");
+        parts.push(r);
+    }
 
     let period = tier.pick(3usize, 4usize);
     let arrivals = tier.pick(300u64, 2_000u64);
